@@ -133,6 +133,21 @@ def apply_delete(sh, offs):
     sh.live = [o for o in sh.live if o not in s]
 
 
+def touch(sh, rng):
+    """a Consume at a random absolute offset not beyond NextOffset: it always succeeds.  (A read that FAILS after it
+    lazily rebuilt an index file leaves that file rebuilt in the implementation, while the model's failing calls leave
+    the state as it was - see DESIGN 12.7; the probes therefore never end on a failing read of a segment.)"""
+    if rng.random() < 0.5:
+        return []
+    cur = getattr(sh, 'cursor', None)
+    if cur is not None and rng.random() < 0.6:
+        x = min(cur + rng.choice([0, 1, 2]), sh.next)      # a consumer resuming near where it left off
+    else:
+        x = rng.randrange(0, sh.next + 1)
+    sh.cursor = x
+    return ['cons %d %d' % (x, rng.choice([1, 3, 40]))]
+
+
 def gen_history(rng, prof, probes):
     """probes: function(sh, rng) -> list of probe lines inserted after every state change"""
     sh = Shadow()
@@ -212,7 +227,10 @@ def gen_history(rng, prof, probes):
             ops.append(draw_open(rng, prof, sh, ro=ro))
             note('reopen_ro' if ro else 'reopen')
         if sh.open:
-            ops.extend(probes(sh, rng))
+            # the first and the last read around every step hit a random absolute offset: state carried from one call to
+            # the next (a remembered segment, a reader kept open) is only visible when the reads do not always start
+            # from the oldest offset
+            ops.extend(touch(sh, rng) + probes(sh, rng) + touch(sh, rng))
     if sh.open and rng.random() < 0.5:
         ops.append('close')
         ops.extend(prof.get('after_close', []))
